@@ -568,6 +568,7 @@ pub fn execute(lines: &[String]) -> CaseReport {
                     let kind = match reference(link_name(&target.name()), bytes) {
                         Verdict::Tcp(s) => format!("well-formed TCP segment{}", if s.flags & RST != 0 { " (RST)" } else if s.flags & SYN != 0 { " (SYN)" } else { "" }),
                         Verdict::Udp { .. } => "well-formed UDP datagram".to_string(),
+                        Verdict::UdpMay { why, .. } => format!("UDP datagram in a frame with {}", why),
                         Verdict::Arp { .. } => "well-formed ARP packet".to_string(),
                         Verdict::Reject { layer, why } => format!("frame to be rejected at {} ({})", layer, why),
                         Verdict::Lenient { why } => format!("frame with {}", why),
@@ -705,6 +706,48 @@ pub fn execute(lines: &[String]) -> CaseReport {
                             }
                         }
                     }
+                    Verdict::UdpMay { src, dst, payload, why } => {
+                        // the frame's octet count and its IPv4 total length disagree, the UDP datagram in it is
+                        // consistent: dropping is fine; a delivery must be THE datagram (not the padded / cut octets)
+                        let bound = if dst.0 == addr(v) && dst.1 == UDP_EXACT {
+                            Some(0usize)
+                        } else if dst.1 == UDP_WILD {
+                            Some(1)
+                        } else {
+                            None
+                        };
+                        match bound {
+                            None => {
+                                refs = format!("udp-may:{}:unbound", why);
+                                strict = Some("unbound-datagram".into());
+                            }
+                            Some(app) => {
+                                refs = format!("udp-may:{}:rec{}", why, app);
+                                udp_ok_causes.push(*inj);
+                                let got: Vec<&Event> = res.events.iter().filter(|x| matches!(&x.ev, Ev::Demux { cause: Some(c), .. } if *c == *inj)).collect();
+                                if got.is_empty() {
+                                    rep.count(format!("may.{}.dropped", why));
+                                } else {
+                                    let good = got.len() == 1
+                                        && matches!(&got[0].ev, Ev::Demux { machine, app: a2, payload: pl, local, remote, .. }
+                                            if *machine == v && *a2 == app && pl == payload && *local == Some(Ep::new(dst.0, dst.1)) && *remote == Some(Ep::new(src.0, src.1)));
+                                    if good {
+                                        rep.count(format!("may.{}.delivered", why));
+                                    } else {
+                                        let lens: Vec<usize> = got.iter().filter_map(|x| match &x.ev { Ev::Demux { payload, .. } => Some(payload.len()), _ => None }).collect();
+                                        rep.fail(
+                                            format!("a frame whose octet count differs from its IPv4 total length ({}; frame {} octets, total length {}) carried a UDP datagram of {} payload octets for {}; the application was handed {:?} (payload lengths {:?}): not the datagram that was sent -- op `{}`", why, bytes.len(), u16::from_be_bytes([bytes[2], bytes[3]]), payload.len(), fmt_ep(*dst), reached, lens, &lines[*op][..lines[*op].len().min(200)]),
+                                            "stack inconsistent-length-frame delivered-altered-payload",
+                                        );
+                                    }
+                                }
+                                let d = diff_obs(pre, post, !interleaved, &legit_keys);
+                                if !d.is_empty() {
+                                    rep.fail(format!("a UDP datagram in a frame with {} changed tables or connections: {}", why, d.join("; ")), "stack inconsistent-length-frame changed-state");
+                                }
+                            }
+                        }
+                    }
                     Verdict::Tcp(seg) => {
                         let key: Key = (seg.dst, seg.src);
                         let has_session = pre.sessions.contains(&key);
@@ -780,10 +823,16 @@ pub fn execute(lines: &[String]) -> CaseReport {
                             bad.push((what.into(), d.join("; ")));
                         }
                     }
+                    // the length-consistency classes carry their reason in the identity (a UDP length field
+                    // judged against the octets that arrived / against the IPv4 payload is its own finding class)
+                    let class = match &verdict {
+                        Verdict::Reject { why, .. } if why.starts_with("udp-length-vs-") || *why == "udp-short-of-ip-payload" => format!(" {}", why),
+                        _ => String::new(),
+                    };
                     for (what, detail) in &bad {
                         rep.fail(
                             format!("{} ({}; victim state {}) {}: {} -- op `{}` frame {}", kind, refs, state, what, detail, &lines[*op][..lines[*op].len().min(220)], hex(&bytes[..bytes.len().min(80)])),
-                            format!("stack {} {}", kind, what),
+                            format!("stack {} {}{}", kind, what, class),
                         );
                     }
                     if !bad.is_empty() {
